@@ -69,6 +69,15 @@ def units(tier, seed):
                 if not lx and prov != "C":
                     continue
                 out.append(dict(pattern=pat, lx="".join(lx), prov=prov, universe=uni))
+    # the same requests put to an array WITH A PAST over numeric, unsorted items: the array is the result of
+    # summing a larger parent array, its total and shares were already asked for, and its values were then
+    # doubled in place
+    for pat in (("2323",) if tier == "quick" else ("2323", "all3")):
+        for lx in S.arrangements(uni):
+            for prov in S.PROVENANCES:
+                if not lx and prov != "C":
+                    continue
+                out.append(dict(pattern=pat, lx="".join(lx), prov=prov, universe=uni, stage="derived"))
     return out
 
 
@@ -114,14 +123,38 @@ def requests(lx, universe):
     yield ("identity", "grand-total", "")
 
 
-def run_case(pattern, lx, prov, universe, assign, req):
-    items = S.items_for(pattern)
+def run_case(pattern, lx, prov, universe, assign, req, stage="fresh"):
+    items = S.items_for(pattern, family="numeric" if stage == "derived" else "std")
     lx = tuple(lx)
     fx = ASSIGN[assign](lx, items)
-    X = S.flodym_array(lx, items, fx, "Cu8" if assign == "u8" else ("Cint" if assign == "int" else prov))
-    mx = R.build(lx, items, fx)
     op, arg, style = req
-    case = dict(pattern=pattern, lx="".join(lx), prov=prov, universe=universe, assign=assign, req=list(req))
+    case = dict(pattern=pattern, lx="".join(lx), prov=prov, universe=universe, assign=assign, req=list(req), stage=stage)
+    if stage == "derived":
+        f0 = fx
+        if len(lx) < len(S.LETTERS):
+            ext = [l for l in S.LETTERS if l not in lx][0]
+            lp = lx[:1] + (ext,) + lx[1:]
+            first = items[ext][0]
+            fp = lambda lab: f0(tuple(v for l, v in zip(lp, lab) if l != ext)) if lab[lp.index(ext)] == first else 0.0
+        else:  # no letter left for a parent: the array itself has the past
+            lp, fp = lx, f0
+        P = S.flodym_array(lp, items, fp, "Cint" if assign == "int" else prov)
+
+        def derive():
+            Xd = P.sum_to(lx)
+            Xd.sum_values()
+            Xd.get_shares_over(lx) if lx else None
+            Xd.sum_to(lx[:1])
+            Xd.values[...] = Xd.values * 2
+            return Xd
+
+        st0, X = attempt(derive)
+        if st0 == "raised":
+            return "fail", dict(case=case, tags=dict(op=op, kind="prelude-raised"), what=f"summing a parent array over {lp} to {lx}, asking for its total and shares and doubling its values in place raised {X}")
+        fx = lambda lab: f0(lab) * 2
+    else:
+        X = S.flodym_array(lx, items, fx, "Cu8" if assign == "u8" else ("Cint" if assign == "int" else prov))
+    mx = R.build(lx, items, fx)
     tol = 0.0
 
     def fail(kind, what, **kw):
@@ -279,9 +312,14 @@ def run_unit(u):
     nontriv = any(len(items[l]) >= 2 for l in lx)
     tier = "quick" if len(u["universe"]) == 4 else "thorough"
     res = dict(evals=0, nontrivial=0, outcomes={}, fails=[], samples=[])
+    stage = u.get("stage", "fresh")
     for req in requests(lx, u["universe"]):
         for assign in assigns_for(req, tier):
-            oc, f = run_case(u["pattern"], u["lx"], u["prov"], u["universe"], assign, req)
+            if stage == "derived" and assign == "u8":
+                continue
+            oc, f = run_case(u["pattern"], u["lx"], u["prov"], u["universe"], assign, req, stage)
+            if stage == "derived":
+                oc += " (derived array with a past, numeric unsorted items)"
             res["evals"] += 1
             res["nontrivial"] += 1 if nontriv else 0
             res["outcomes"][oc] = res["outcomes"].get(oc, 0) + 1
@@ -293,5 +331,5 @@ def run_unit(u):
 
 
 def replay(case):
-    oc, f = run_case(case["pattern"], case["lx"], case["prov"], case["universe"], case["assign"], tuple(case["req"]))
+    oc, f = run_case(case["pattern"], case["lx"], case["prov"], case["universe"], case["assign"], tuple(case["req"]), case.get("stage", "fresh"))
     return [f] if f else []
